@@ -121,6 +121,8 @@ def gen(ctx):
         it = rng.choice([3, 4])
         P = rng.choice([24, 32, 48, 64])
         e1 = rng.choice([0.01, 0.02, 1.0 / 64, 0.03] if q else [0.01, 0.02, 1.0 / 64, 0.03, 0.005])
+        if e1 * (n - 1) ** 2 > 0.45 * (2 * half) ** 2:
+            e1 = 0.02       # stay inside the explicit scheme's stable range e1 <= delta^2/2 (C04_fp3_stable_range): beyond it rounding noise grows by |1 + e1 - 4 e1/delta^2| per step
         shape = rng.choice(["gauss", "gauss", "flat", "ring", "tilted"]) if n > 32 else rng.choice(["gauss", "tilted"])
         if v == 3:
             steps = int((6 if q else 12) / e1)
